@@ -65,5 +65,21 @@ falsealarm)
     echo "falsealarm: seed $((${SEED_BASE:-1000}+s*7919)) done"
   done
   exit $fail;;
-*) echo "usage: ./check selftest determinism|seams|sensitivity|falsealarm"; exit 2;;
+benign)
+  # property-preserving changes written by independent sub-agents (/verif/benign): no check may alarm.
+  # Runs against a scratch worktree + scratch simulator copy (tools/scratch_check.sh), never /repo.
+  fail=0
+  for f in "$VERIF_DIR"/benign/*.diff; do
+    case "$(basename $f)" in
+      B1-*) props="C10 C11 C12 C07";;
+      B2-*) props="C04 C05 C06 C17 C11";;
+      *)    props="C13 C14 C15 C07";;
+    esac
+    out=$("$VERIF_DIR/tools/scratch_check.sh" "$f" $props 2>&1 | grep -E " exit=")
+    echo "$out"
+    echo "$out" | grep -qv " exit=0 " && fail=1
+  done
+  "$VERIF_DIR/tools/scratch_check.sh" --clean
+  exit $fail;;
+*) echo "usage: ./check selftest determinism|seams|sensitivity|falsealarm|benign"; exit 2;;
 esac
